@@ -906,6 +906,16 @@ def discharge_parallel(obligs, timeout_ms=None, jobs=None):
     ctx = multiprocessing.get_context('fork')
     with ctx.Pool(min(jobs, len(_OBL))) as pool:
         res = pool.map(_discharge_one, range(len(_OBL)), chunksize=1)
+    # a verdict must not flip because the machine is busy: obligations left open by a time-out are tried once more, a few at a
+    # time, with four times the budget (nothing is retried when every obligation was decided)
+    late = [r[0] for r in res if r[1] not in ('discharged', 'refuted') and 'timeout' in str(r[5]).lower()]
+    if late and len(late) <= 12 and timeout_ms and os.environ.get('VERIF_NO_RETRY') != '1':
+        # (many open obligations are not load noise: a changed tree leaves them open for good, and retrying all of them costs minutes)
+        _OBL_TIMEOUT[0] = timeout_ms * 4
+        with ctx.Pool(min(4, len(late))) as pool:
+            again = {r[0]: r for r in pool.map(_discharge_one, late, chunksize=1)}
+        _OBL_TIMEOUT[0] = timeout_ms
+        res = [again.get(r[0], r) for r in res]
     out = []
     for ix, st, model, be, secs, txt in res:
         label, hyps, goal = _OBL[ix]
